@@ -106,6 +106,7 @@ def one_run(w, ps, m, arg, plan):
     """plan: list of (k, kind) with kind in vanish|zombie|EACCES|EPERM."""
     build_world(w)
     ps.process_iter.cache_clear()
+    ps.virtual_memory()      # (memory_percent() memoises the machine's total memory: make every run start alike)
     p = ps.Process(PID)
     acc = []
     base = w.acc
@@ -116,6 +117,9 @@ def one_run(w, ps, m, arg, plan):
     for k, kind in plan:
         if kind == "vanish":
             w.hooks.setdefault(base + k, []).append(lambda: w.vanish(PID))
+        elif kind.startswith("vanish:"):
+            # a relative (parent / child) of the queried process disappears
+            w.hooks.setdefault(base + k, []).append(lambda v=int(kind[7:]): w.vanish(v))
         elif kind == "zombie":
             w.hooks.setdefault(base + k, []).append(lambda: (PID in w.procs) and w.exit(PID))
         else:
@@ -139,7 +143,9 @@ def one_run(w, ps, m, arg, plan):
                 touched.add(int(parts[2]))
     pidok = epid is None or epid in touched
     # ... and NoSuchProcess for another process it walked over is about that process
-    other_gone = out == "NSP" and epid is not None and epid != PID and epid not in w.procs
+    # (parent() itself answers None when the parent is gone: no such allowance there)
+    other_gone = (out == "NSP" and epid is not None and epid != PID and epid not in w.procs
+                  and m != "parent")
     return {"m": m, "arg": arg, "plan": plan, "acc": [{"op": a["op"], "res": a["res"], "phase": a["phase"]} for a in acc],
             "paths": [a["path"] for a in acc][:40],
             "out": out, "wellformed": wf, "pidok": pidok, "epid": epid,
@@ -278,6 +284,10 @@ def check(ctx):
         for k in ks:
             for kind in ("vanish", "zombie", "EACCES", "EPERM"):
                 jobs.append((m, arg, [(k, kind)]))
+        if m in ("parent", "parents", "children", "process_iter"):
+            for k in ks:
+                for victim in (PARENT, 80):
+                    jobs.append((m, arg, [(k, "vanish:%d" % victim)]))
         pairs = [(i, j) for i in ks for j in ks if j > i]
         if not thorough and len(pairs) > 12:
             pairs = rnd.sample(pairs, 12)
